@@ -31,13 +31,20 @@ def sumTo : Nat → (Nat → α) → α
 /-- `x == 0` for a non-NaN value (neither below nor above zero) -/
 def isZero (a : α) : Bool := !(A.lt a A.zero || A.lt A.zero a)
 
-/-- memoised `f` on `[0,n) × [0,m)`; equal to `f` everywhere (`tabulate2_eq`) -/
+/-- lookup in a table of values of `f`, falling back to `f` outside the table -/
+def tabGet (arr : Array (Array α)) (f : Nat → Nat → α) (i j : Nat) : α :=
+  match arr[i]? with
+  | some row => (match row[j]? with | some v => v | none => f i j)
+  | none => f i j
+
+/-- the table of values of `f` on `[0,n) × [0,m)` -/
+def tabOf (n m : Nat) (f : Nat → Nat → α) : Array (Array α) :=
+  Array.ofFn (n := n) fun i => Array.ofFn (n := m) fun j => f i.val j.val
+
+/-- memoised `f`; equal to `f` everywhere (`tabulate2_eq`).  (The compiler eta-expands this definition, so callers
+that want the table built once bind `tabOf n m f` themselves and keep `tabGet table f`.) -/
 def tabulate2 (n m : Nat) (f : Nat → Nat → α) : Nat → Nat → α :=
-  let arr : Array (Array α) := Array.ofFn (n := n) fun i => Array.ofFn (n := m) fun j => f i.val j.val
-  fun i j =>
-    match arr[i]? with
-    | some row => (match row[j]? with | some v => v | none => f i j)
-    | none => f i j
+  tabGet (tabOf n m f) f
 
 structure NdSparse (α : Type) where
   ranges : List Nat
@@ -72,11 +79,12 @@ def bsplineG (t : Int → α) (x : α) : (n : Nat) → (i : Int) → α
 
 /-- `bsplinebasis(knots, nknots, x, npts, order)`: `npts × (nknots-order-1)` -/
 def bsplineBasis (t : Int → α) (nknots order : Nat) (xs : List α) : Mat α :=
-  ⟨xs.length, nknots - order - 1,
-   tabulate2 xs.length (nknots - order - 1) fun row col =>
-     match xs[row]? with
-     | some x => bsplineG t x order (col : Int)
-     | none => A.zero⟩
+  let f : Nat → Nat → α := fun row col =>
+    match xs[row]? with
+    | some x => bsplineG t x order (col : Int)
+    | none => A.zero
+  let table := tabOf xs.length (nknots - order - 1) f      -- computed once, here
+  ⟨xs.length, nknots - order - 1, tabGet table f⟩
 
 /-- `k % ndim` for `k = dim+ndim-1, dim+ndim-2, …, dim+1`: the order in which the flattening loop of
 `slicemultiply` visits the other dimensions (fastest running first) -/
